@@ -5,7 +5,7 @@ P = {
  "C01": ("4 C01", "generated-input search (complete builtin/operator matrices + proptest programs + libFuzzer) under catch_unwind; oracle: returns without unwinding",
          "Every case runs under catch_unwind with a recording hook in two build profiles (overflow checks on / off). The builtin x argument-shape matrix (arity 0..3 over the edge pool) and the operator x pool^2 matrix are complete; programs (rendered ASTs, token soups, raw Unicode, planted defects, deep nesting to 4096 chars) are sampled through all 48 entry points, four context kinds, iterators and formatters; the thorough tier adds coverage-guided libFuzzer campaigns. Exploration: absence of panics is shown only for what was generated.",
          "256 MiB worker stacks (stack exhaustion is outside the property, D12); user functions of generated contexts never panic; {:#?} only for trees of depth <= 64."),
- "C02": ("4 C02", "exhaustive small-scope enumeration + proptest round trip; oracle: independent precedence-climbing reference parser (AST -> render -> build -> normalise = AST)",
+ "C02": ("4 C02", "exhaustive small-scope enumeration + proptest round trip; libFuzzer in thorough; oracle: independent precedence-climbing reference parser (AST -> render -> build -> normalise = AST)",
          "Complete operator matrix (17^3 operator triples x 3^4 prefix choices, pairs x 8^3 operand forms, 9 assignment operators x 14^2), every token sequence up to length 7 (quick) / 8 (thorough) over a representative alphabet, random ASTs rendered with minimal and redundant parentheses and without spaces (D6 words as opaque operands), and long spines up to 60 operators; the built tree must equal the reference tree. Complete within the stated bounds, sampled beyond.",
          "The reference grammar is the documented precedence table; D1-D4 regions (assignment to non-identifiers, adjacent assignment operators, x ^ -y ^ z, ! after an operand) are counted but not asserted."),
  "C03": ("4 C03", "complete operator x operand-pool^2 matrix + boundary-biased proptest pairs; oracle: independent i128 / f64 reference table",
@@ -14,7 +14,7 @@ P = {
  "C04": ("4 C04", "exhaustive stateful enumeration (all abstract states x all operations) + proptest random histories; oracle: map model compared after every step",
          "All 784 abstract states of a finite value/name domain (13 values incl. both zeros and tuples of different element types), each reached by a clean and a dirty (other types, clone, clear) history, x every operation (set_value, 9 assignment operators with literal and variable right-hand sides, reads, clears, set_function, toggle, clone-and-continue); return values and complete observable state equal the model after every step. Random histories up to 60 steps over a larger domain.",
          "Model = BTreeMap with type tags; exact ExpectedT{actual} on type clashes."),
- "C05": ("4 C05", "exhaustive token-sequence enumeration + proptest nested sequences; oracle: reference chain-of-tuples parser and reference interpreter (value + effects)",
+ "C05": ("4 C05", "exhaustive token-sequence enumeration + proptest nested sequences; libFuzzer in thorough; oracle: reference chain-of-tuples parser and reference interpreter (value + effects)",
          "Every sequence up to length 7 (quick) / 9 (thorough) over `1 x = , ; ( )` and up to 5 / 6 over the 16-symbol base alphabet; well-formed ones must build into the reference tree and evaluate to the reference value and final variables; random nested sequences with empty elements.",
          "An absent element is the empty value; D1-D4 unclaimed."),
  "C06": ("4 C06", "proptest round trips (eval(quote(t)) = t, decimal/hex = n, renderings of x = x) + differential against std parse and the reference tokenizer",
@@ -23,7 +23,7 @@ P = {
  "C07": ("4 C07", "metamorphic proptest (two independent separator assignments + canonical rendering) with a complete token-class-pair x separator table; libFuzzer in thorough",
          "Token sequences with two random separator assignments per gap (25 whitespace chars, block and line comments with arbitrary text) must build equal trees or fail alike; complete table of class-representative pairs x 30 separators x 2 contexts; all sequences up to length 4 tight vs commented; unterminated block comments rejected. Admissibility asserted with the reference tokenizer.",
          "D10: lone & and | are not tokens."),
- "C08": ("4 C08", "proptest programs with recording / failing user functions; oracle: reference interpreter triple (result, final context, ordered call log)",
+ "C08": ("4 C08", "proptest programs with recording / failing user functions; libFuzzer in thorough; oracle: reference interpreter triple (result, final context, ordered call log)",
          "Random effectful programs (assignments in operand positions, recording and failing functions, unknown names, k/0 with distinct k, eager if, no short-circuit) over varied contexts; result (exact names, messages and failing operands), final variables and call log with arguments must equal the reference.",
          "User functions deterministic; their only effect is the harness-owned log."),
  "C09": ("4 C09", "complete configuration matrix enumeration + proptest over random programs whose names live in both namespaces; oracle: reference resolution rule / reference interpreter with recording functions",
@@ -32,16 +32,16 @@ P = {
  "C10": ("4 C10", "complete builtin x argument-shape matrix + per-family proptest; oracle: per-builtin reference functions (bit-exact / error / validity predicate for min,max) and len/substring laws",
          "49 builtins x 23,500 argument shapes (arity 0..3) in both build profiles, random arguments near function-specific boundaries, and (string, a, b) triples for the len/substring consistency laws.",
          "std f64 functions are the specification of the math builtins; D11 regions not asserted."),
- "C11": ("4 C11", "differential proptest (immutable vs mutable evaluation on clones) + reference projection for programs with assignments",
+ "C11": ("4 C11", "differential proptest (immutable vs mutable evaluation on clones) + reference projection for programs with assignments; libFuzzer in thorough",
          "Programs with and without assignments x context recipes: without assignment operators the two evaluators must agree exactly (results, calls, contexts); with assignments the immutable result is the reference projection; contexts unchanged after immutable evaluation; storage-less contexts reject every assignment.",
          "D9: ContextNotMutable when an assignment node is reached."),
  "C12": ("4 C12", "differential proptest over all 48 entry points against the projection of the untyped result; libFuzzer in thorough",
          "Strings of every family x context recipes: each typed / precompiled / context-free entry point equals the projection of the untyped string-level result, contexts after _mut variants agree, immutable variants do not mutate, build errors are returned by every entry point.",
          "The untyped string-level entry points are the reference points (their relation to the reference interpreter is C08/C11)."),
- "C13": ("4 C13", "exhaustive token-sequence enumeration + planted-defect proptest; oracle: independent local recogniser of ill-formedness (no tree built)",
+ "C13": ("4 C13", "exhaustive token-sequence enumeration + planted-defect proptest; libFuzzer in thorough; oracle: independent local recogniser of ill-formedness (no tree built)",
          "All 25.6 M sequences up to length 6 (quick) / 7 (thorough) over the base alphabet plus `true`, and planted defects in rendered and type-directed programs: unbalanced -> build error; balanced -> never an unmatched-brace error; missing operand / juxtaposition -> build error or wrong-arity node and never Ok in a generous context.",
          "D4 unclaimed."),
- "C14": ("4 C14", "proptest over well-formed ASTs; oracle: occurrence list of the generating AST, rename/eval commutation",
+ "C14": ("4 C14", "proptest over well-formed ASTs; libFuzzer over token soups in thorough; oracle: occurrence list of the generating AST / reference parse, rename/eval commutation",
          "The ten iterators against the occurrence list, overwrite-through-mutable-iterator exactness, unknown-identifier errors listed, injective renaming commutes with evaluation (result, calls, final context).",
          "Trees whose shape differs from the reference parse are C02/C05's business and skipped."),
  "C15": ("4 C15", "generated read-only programs evaluated concurrently (2..16 threads) vs sequential oracle; Send + Sync decided by the check's own need to type-check",
@@ -78,7 +78,7 @@ m={
    {"name": "vcheck", "path": "harness/checks", "serves_properties": [p for p in P if p not in ("C15","C16")], "kind_free_text": "Rust binary: exhaustive enumerators + proptest TestRunner (seeded from VERIF_SEED, shrinking per failure signature) against the refmodel crate"},
    {"name": "c15", "path": "harness/c15", "serves_properties": ["C15"], "kind_free_text": "separate crate: type-checks iff the eight types are Send + Sync; concurrent evaluation vs sequential oracle"},
    {"name": "c16", "path": "harness_serde/c16", "serves_properties": ["C16"], "kind_free_text": "separate workspace building evalexpr with feature serde; exact in-memory serde data-model format + serde_json"},
-   {"name": "libfuzzer", "path": "fuzz", "serves_properties": ["C01","C07","C12"], "kind_free_text": "cargo-fuzz targets with the oracle inside the target (thorough tier only)"},
+   {"name": "libfuzzer", "path": "fuzz", "serves_properties": ["C01","C02","C05","C07","C08","C11","C12","C13","C14"], "kind_free_text": "cargo-fuzz targets with the oracle inside the target (thorough tier only)"},
    {"name": "refmodel", "path": "harness/refmodel", "serves_properties": list(P), "kind_free_text": "reference tokenizer, parser, interpreter, builtins, context model and generators; does not depend on evalexpr"}
  ],
  "checks": checks,
